@@ -295,8 +295,11 @@ fn dyadic_strategy(k: usize, zero_wild: bool, allow_zero: bool) -> BoxedStrategy
                     }
                 }
             }
+            // every non-zero weight gets at least 1/64; the rest is shared proportionally
+            let nz = w.iter().filter(|&&x| x > 0).count() as u32;
             let total: u32 = w.iter().sum();
-            let mut parts: Vec<u8> = w.iter().map(|&x| (x * 64 / total) as u8).collect();
+            let spare = 64 - nz;
+            let mut parts: Vec<u8> = w.iter().map(|&x| if x > 0 { 1 + (x * spare / total) as u8 } else { 0 }).collect();
             let mut rest = 64 - parts.iter().map(|&x| x as i32).sum::<i32>();
             // hand the remainder to the non-zero-weight entries in turn
             let mut i = 0;
